@@ -67,23 +67,42 @@ type RowSet struct {
 }
 
 type Store struct {
-	Log        []Event
-	Durable    []int
-	txs        []*txState
-	calls      int
-	FaultAt    int   // k-th fallible boundary call fails (0 = none)
-	FaultErr   error // default errInjected
-	nextTok    int
-	OpenStmts  int
-	Prepared   int
-	OpenRows   int
-	CtxCancel  int // context tag that is "cancelled": every call with it fails
-	OnExec     func(text string, args []driver.Value) Result
-	OnQuery    func(text string, args []driver.Value) RowSet
-	NoSavepoint bool
+	Log            []Event
+	Durable        []int
+	txs            []*txState
+	calls          int
+	FaultAt        int // k-th BEGIN/EXEC/QUERY/COMMIT boundary call fails (0 = none)
+	PrepareFaultAt int // k-th PREPARE fails (0 = none)
+	prepCalls      int
+	FaultErr       error // default errInjected
+	nextTok        int
+	OpenStmts      int
+	Prepared       int
+	OpenRows       int
+	CtxCancel      int // context tag that is "cancelled": every call with it fails
+	OnExec         func(text string, args []driver.Value) Result
+	OnQuery        func(text string, args []driver.Value) RowSet
+	NoSavepoint    bool
 }
 
 func NewStore() *Store { return &Store{} }
+
+// fault numbers the fallible boundary calls. PREPARE calls have their own
+// counter and plan: how often database/sql prepares at driver level depends on
+// its pool internals, so statement-level fault positions must not depend on it.
+func (s *Store) faultPrepare(ctx int) error {
+	s.prepCalls++
+	if s.CtxCancel != 0 && ctx == s.CtxCancel {
+		return context.Canceled
+	}
+	if s.PrepareFaultAt != 0 && s.prepCalls == s.PrepareFaultAt {
+		if s.FaultErr != nil {
+			return s.FaultErr
+		}
+		return errInjected
+	}
+	return nil
+}
 
 func (s *Store) fault(ctx int) error {
 	s.calls++
@@ -226,7 +245,7 @@ func (s *Store) Prepare(tx *txState, ctx int, text string) error {
 	if tx != nil {
 		txid = tx.id
 	}
-	if err := s.fault(ctx); err != nil {
+	if err := s.faultPrepare(ctx); err != nil {
 		s.Log = append(s.Log, Event{Kind: "PREPARE", Text: text, Ctx: ctx, Tx: txid, Fail: true})
 		return err
 	}
@@ -295,6 +314,11 @@ func (s *Store) Kinds() []string {
 	for i := range s.Log {
 		e := s.Log[i]
 		k := e.Kind
+		if k == "PREPARE" || k == "CLOSE-STMT" {
+			// driver-level prepare/close traffic depends on database/sql's pool
+			// internals (re-preparing on the transaction's connection): not observed
+			continue
+		}
 		switch {
 		case hasPrefix(e.Text, "SAVEPOINT "):
 			k += " SAVEPOINT " + norm(e.Text[len("SAVEPOINT "):])
